@@ -18,7 +18,7 @@ func c08Leaves() (all, small []gen.Expr) {
 	for _, p := range paths {
 		all = append(all, gen.F("count", p), gen.F("sum", p), gen.F("number", p), gen.F("string-length", p))
 	}
-	for _, v := range []string{"", "7", " 7 ", "-7", "7.", ".7", "x", "1e3", "+1", "Infinity", "0x10", "- 7", "1 2", "NaN", "١"} {
+	for _, v := range []string{"", "7", " 7 ", "-7", " -7", "\n -7\n", "-7 ", "7.", " 7.", ".7", "-.7", "x", "1e3", "+1", "Infinity", "0x10", "- 7", "1 2", "NaN", "١", "7-", "--7", "-"} {
 		all = append(all, gen.F("number", gen.S(v)))
 	}
 	all = append(all, gen.F("number"), gen.F("number", gen.F("true")), gen.F("number", gen.F("false")))
@@ -84,19 +84,46 @@ func c08Spaces(tier string) []*explore.Space {
 	for _, l := range all {
 		a4 = append(a4, gen.F("string", l))
 	}
+	// A6: arithmetic evaluated per candidate inside a predicate (nothing may be
+	// remembered from one candidate to the next)
+	var a6 []hostCase
+	ctxLeaves := []gen.Expr{gen.F("count", relPath(gen.Ch("*"))), gen.F("count", relPath(gen.At("*"))), gen.F("number", relPath(gen.Dot())), gen.F("string-length", relPath(gen.Dot())),
+		gen.F("sum", relPath(gen.At("*"))), gen.F("position"), gen.F("last"), gen.F("count", relPath(gen.St("preceding-sibling", "node()")))}
+	lits := []gen.Expr{lit("1", 1), lit("2", 2), lit("0.5", 0.5)}
+	for _, h := range []gen.Step{gen.Ch("*"), gen.St("descendant-or-self", "node()"), gen.Ch("node()")} {
+		for _, o1 := range []string{"+", "-", "*", "div"} {
+			for _, o2 := range []string{"+", "*", "-"} {
+				for _, x := range ctxLeaves {
+					if call, ok := x.(*gen.Call); ok && (call.Name == "position" || call.Name == "last") && h.Axis != "child" {
+						continue // position()/last() are only specified for child steps (C03)
+					}
+					for _, l1 := range lits {
+						for _, l2 := range lits[:2] {
+							for _, cmp := range []string{"=", ">"} {
+								a6 = append(a6, hostCase{relPath(withPred(h, gen.B(cmp, gen.B(o2, gen.B(o1, x, l1), l2), lit("2", 2)))), relPath(h)},
+									hostCase{relPath(withPred(h, gen.B(cmp, gen.B(o2, l2, gen.B(o1, l1, x)), lit("2", 2)))), relPath(h)})
+							}
+						}
+					}
+				}
+			}
+		}
+	}
 	env := func(e *ref.Env) { e.SumNumericOnly = true; e.ModDomainOnly = true; e.StringNumSmall = true }
 	ev := &evalCfg{Prop: "C08", Ops: []string{"evaluate"}, Mode: "seq", Env: env}
 	n := 2
 	if tier == "thorough" {
 		n = 3
 	}
-	vals := []string{"1", "2", "x", "", "0.5", " 3 "}
+	vals := []string{"1", "2", "x", "", "0.5", " 3 ", " -2", "4."}
 	docs := func() []*doc.Tree { return uniV(n, vals) }
 	sp := []*explore.Space{
 		exprSpace("A1", "leaves, unary minus x1..3, floor/ceiling", a1, docs, ev),
 		exprSpace("A2", "one binary operator over all leaf pairs", a2, docs, ev),
 		exprSpace("A3", "two binary operators (with and without parentheses) over the reduced leaves", a3, docs, ev),
 		exprSpace("A4", "string() of numbers", a4, docs, ev),
+		exprSpace("A6", "arithmetic over candidate-dependent leaves inside a predicate (several candidates per evaluation)", hostExprs(a6), docs,
+			&evalCfg{Prop: "C08", Ops: []string{"select"}, Mode: "set", Env: env, Base: func(i int) gen.Expr { return a6[i].base }}),
 	}
 	if tier == "thorough" {
 		var a5 []gen.Expr
